@@ -30,6 +30,23 @@ SMax  == <<65535, 65535>>          \* 2^32 - 1
 SNear == <<65535, 65530>>          \* a few steps before the wrap
 SHalf == <<32767, 65534>>          \* 2^31 - 2
 
+\* ---- types above 255 (CAA 257, URI 256 and the private-use type 65280 as opaque RDATA): "CNAME and
+\* other data" on both sides of the meta-type range 251..255.  Z4: b holds nothing but a CAA, c is a
+\* CNAME; d does not exist.  (The zone file parser knows CAA only, T<code> types arrive by update.)
+NC == <<"c">> \o AP
+ND == <<"d">> \o AP
+Z4 == {<<AP, "SOA", 0>>, <<AP, "NS", 1>>, <<NA, "A", 1>>, <<NB, "CAA", 1>>, <<NC, "CNAME", 1>>}
+HiT    == {"CAA", "T256", "T65280"}
+HiOwn  == {NA, NB, NC, ND}
+HiAdd  == {RR(o, "IN", t, 300, 1) : o \in HiOwn, t \in HiT \cup {"CNAME", "A"}} \cup {RR(o, "IN", "CNAME", 300, 2) : o \in HiOwn}
+HiDel  == {RR(o, "ANY", t, 0, 0) : o \in {NA, NB, NC}, t \in {"A", "CAA", "CNAME", "ANY"}}
+          \cup {RR(NB, "NONE", "CAA", 0, 1), RR(NB, "NONE", "T65280", 0, 1)}
+HiUpd  == HiAdd \cup HiDel
+MsgsHi1 == {[pre |-> <<>>, upd |-> <<u>>] : u \in HiUpd}
+MsgsHi2 == {[pre |-> <<>>, upd |-> <<u, v>>] : u \in HiUpd, v \in {w \in HiUpd : w.o = u.o}}
+MsgsHiP == {[pre |-> <<RR(o, c, t, 0, 0)>>, upd |-> <<RR(ND, "IN", "A", 300, 1)>>] :
+              o \in {NB, NC}, c \in {"ANY", "NONE"}, t \in {"CAA", "CNAME", "A", "ANY", "T65280"}}
+
 \* ---- update RRs
 \* SOA serials around 10: lower, equal, higher, higher across half the number circle (RFC 1982
 \* greater), exactly half (undefined), more than half (numerically greater, RFC 1982 lower)
@@ -71,6 +88,11 @@ Msgs0  == {[pre |-> <<p>>, upd |-> <<>>] : p \in PreRRs} \cup {[pre |-> <<>>, up
 \* well-formed single-RR update
 Setup  == {[pre |-> <<>>, upd |-> <<u>>] : u \in GoodUpd}
 SetupLite == {[pre |-> <<>>, upd |-> <<u>>] : u \in DelRRs \cup DelSets \cup {RR(o, "IN", "CNAME", 300, 1) : o \in Own}}
+\* a CNAME add together with another well-formed update RR for the same owner, in both orders
+\* (e.g. delete the A RRset, add the CNAME): what a signed zone must handle like an unsigned one
+CnAdds == {RR(o, "IN", "CNAME", 300, rd) : o \in Own, rd \in Rds}
+MsgsCn == {[pre |-> <<>>, upd |-> <<x, y>>] : x \in CnAdds, y \in {w \in GoodUpd : w.o = x.o}}
+          \cup {[pre |-> <<>>, upd |-> <<y, x>>] : x \in CnAdds, y \in {w \in GoodUpd : w.o = x.o}}
 \* serial corner: an SOA update RR at distance 2^31 - 1, 2^31 (RFC 1982: undefined) and 2^31 + 1
 \* from the zone serial, alone and together with a content change in the same message, from
 \* serials 0, 10, 2^31 - 2, 2^32 - 6 and 2^32 - 1.  (The SOA serials are computed for every start
